@@ -195,7 +195,7 @@ class P(Prop):
                 "((score/nb_links)**(1/p), the TypeError of the fast variant on a callable p); sessions of calls on shared objects (runSeq)")
     rule = ("exhaustive: all ordered pairs of small tracks on the lattices {0,1}^2 (dim 2), {0,1,2} (dim 1) and {0,1,2}^2 (dim 2) "
             "(sizes per tier in exhaustive_scopes), each with p = 1, 2, inf, the swapped call and the FDTW score; random: sizes 1..8 (10% up to 12), "
-            "integer / half-integer lattices, axis-aligned integer tracks (exact ties in every dim), general floats and projected survey coordinates (offsets 6e5 / 5e6, points up to 2 km apart), dim 1/2/3, modes DTW/FDTW/FRECHET, "
+            "integer / half-integer lattices, axis-aligned integer tracks (exact ties in every dim), general floats, projected survey coordinates (offsets 6e5 / 5e6, points up to 2 km apart) and (sessions) tracks 1e4..1e7 apart; coordinates as Python floats, Python ints or numpy.float64 (sessions), dim 1/2/3, modes DTW/FDTW/FRECHET, "
             "one case in ten through compare(). Sessions (kind seq): 1..4 calls of match / compare on 2..4 shared tracks, the first or second argument being "
             "a track or what an earlier match returned (55% / 20%), 12% of the tracks already carrying diff/pair/ex/ey features (lists, scalars, a subset); "
             "p = 0, 1, 2, 3, inf in every form (Python int/float, numpy int8..64 / uint8..64 / intc / float16..64, math.inf / numpy.inf / numpy.longdouble(inf), "
@@ -353,10 +353,13 @@ class P(Prop):
 
     def rand_session(self, rng):
         nt = rng.randint(2, 4)
-        style = rng.choice(["lat3", "lat3", "lat2", "half", "float", "line", "utm"])
+        style = rng.choice(["lat3", "lat3", "lat3", "lat2", "lat2", "half", "half", "float", "float", "line", "line", "utm", "utm", "far"])
         hi = 4 if rng.random() < 0.6 else 7
         tracks = [self.rand_track(rng, rng.randint(1, hi), style) for _ in range(nt)]
         pre = [rng.choice(["lists", "scalars", "partial"]) if rng.random() < 0.12 else "none" for _ in range(nt)]
+        ct = rng.choice(["float", "float", "np.float64", "int"])
+        if ct == "int" and not all(float(v).is_integer() for t in tracks for q in t for v in q):
+            ct = "float"
         steps, okres = [], []
         for k in range(rng.choice([1, 1, 2, 2, 3, 4])):
             f = "m" if rng.random() < 0.8 else "c"
@@ -384,7 +387,10 @@ class P(Prop):
             steps.append(self.step(f, a, b, mode, p, pf, dim, mf, df, vb, st))
             if f == "m" and mode != "bad":
                 okres.append(k)
-        return {"kind": "seq", "tracks": tracks, "pre": pre, "steps": steps}
+        case = {"kind": "seq", "tracks": tracks, "pre": pre, "steps": steps}
+        if ct != "float":
+            case["ct"] = ct      # the coordinates are handed to ENUCoords as Python ints / numpy.float64 instead of Python floats
+        return case
 
     def rand_track(self, rng, n, style):
         if style == "lat3":
@@ -396,6 +402,9 @@ class P(Prop):
         if style == "line":   # axis-aligned: distances are integers, ties are exact in every dim
             return [[float(rng.randint(0, 4)), 0.0, float(rng.randint(0, 3))] for _ in range(n)] if rng.random() < 0.5 else \
                    [[0.0, float(rng.randint(0, 4)), 0.0] for _ in range(n)]
+        if style == "far":    # tracks far apart: accumulated costs of 1e12 .. 1e21 for p = 2, 3
+            return [[round(rng.uniform(0, 1) * 10 ** rng.randint(4, 7), 1), round(rng.uniform(0, 1) * 10 ** rng.randint(4, 7), 1),
+                     round(rng.uniform(0, 1e4), 1)] for _ in range(n)]
         if style == "utm":    # projected coordinates of a real survey: large offsets, metres to kilometres between points
             return [[6.0e5 + round(rng.uniform(0, 2000), 2), 5.0e6 + round(rng.uniform(0, 2000), 2), round(rng.uniform(100, 900), 1)] for _ in range(n)]
         return [[rng.uniform(-10, 10), rng.uniform(-10, 10), rng.uniform(-3, 3)] for _ in range(n)]
@@ -428,7 +437,7 @@ class P(Prop):
             return {"kind": "seq", "calls": len(sts), "front": ",".join(sorted({st["f"] for st in sts})),
                     "first_argument_already_matched": any(st["a"].startswith("r") for st in sts),
                     "track_with_earlier_features": any(q != "none" for q in case["pre"]),
-                    "p_form": sts[0]["pf"], "p": sts[0]["p"], "mode": sts[0]["mode"],
+                    "p_form": sts[0]["pf"], "p": sts[0]["p"], "mode": sts[0]["mode"], "coordinates": case.get("ct", "float"),
                     "argument_style": "%s mode=%s dim=%s verbose=%s" % (sts[0]["st"], sts[0]["mf"], sts[0]["df"], sts[0]["vb"])}
         t1, t2 = pts(case["a"]), pts(case["b"])
         return {"kind": case["kind"], "mode": case["mode"], "dim": case["dim"],
@@ -476,9 +485,17 @@ class P(Prop):
             return float(k)
         return getattr(np, pf[3:])(k)
 
-    def mk_pre(self, tr, pre):
-        """a track of the session; `pre`: it already carries features under the names `match` writes"""
-        t = self.mk(tr)
+    def mk_pre(self, tr, pre, ct="float"):
+        """a track of the session; `pre`: it already carries features under the names `match` writes; `ct`: type of the coordinates"""
+        if ct == "float":
+            t = self.mk(tr)
+        else:
+            from tracklib.core.obs_coords import ENUCoords
+            from tracklib.core.obs import Obs
+            from tracklib.core.obs_time import ObsTime
+            from tracklib.core.track import Track
+            conv = int if ct == "int" else self.np.float64
+            t = Track([Obs(ENUCoords(conv(x), conv(y), conv(z)), ObsTime()) for (x, y, z) in pts(tr)])
         n = t.size()
         if pre == "lists":
             t.createAnalyticalFeature("diff", 5.0)
@@ -521,7 +538,7 @@ class P(Prop):
         return fn(A, B, *pos, **kw)
 
     def impl_seq(self, case):
-        objs = [self.mk_pre(tr, pre) for tr, pre in zip(case["tracks"], case["pre"])]
+        objs = [self.mk_pre(tr, pre, case.get("ct", "float")) for tr, pre in zip(case["tracks"], case["pre"])]
         res = []
         for st in case["steps"]:
             A, B = objs[self.idx(case, st["a"])], objs[self.idx(case, st["b"])]
@@ -871,6 +888,8 @@ class P(Prop):
                 yield dict(case, steps=steps[:k] + [dict(st, b=steps[int(st["b"][1:])]["a"])] + steps[k + 1:])
             if st["dim"] != 2 and st["dim"] != 1:
                 yield dict(case, steps=steps[:k] + [dict(st, dim=2)] + steps[k + 1:])
+        if case.get("ct"):
+            yield {k: v for k, v in case.items() if k != "ct"}
         # smaller tracks, smaller coordinates
         trs = [pts(t) for t in case["tracks"]]
         for i, t in enumerate(trs):
